@@ -382,6 +382,7 @@ let lp_main guard path tablepath needpath =
                     end
               end in
             pending := Some ("RECV", [], check))
+      | "ORDER" :: _ -> ()
       | ["END"] -> finish_case ()
       | x :: _ when (x = "FR" || x = "FO" || x = "FZ" || x = "OZ" || x = "NS" || x = "SP" || x = "DEC" || x = "DL" || x = "ST" || x = "RP") ->
           obs := line :: !obs
